@@ -65,7 +65,13 @@ def order_scenarios(rng, n):
                     op.pop('n_splits', None)
             if op['n'] < 4:
                 op['n'] = rng.randint(4, 24)
-            if op.get('iterable_len') is not None:
+            if op.get('input') == 'nd' and 'chunk_size' not in op and rng.random() < .4:
+                # an iterable_len that over-estimates the array is clamped to the number of rows: the row blocks are those of the
+                # real length
+                op['n'] = max(op['n'], 10)
+                op['n_splits'] = rng.choice([2, 3, 4])
+                op['iterable_len'] = op['n'] + rng.randint(2, 12)
+            elif op.get('iterable_len') is not None:
                 op['iterable_len'] = min(op['iterable_len'], op['n'])
             if rng.random() < .25:
                 # a look-ahead bound below the chunk size slows the call down but does not change which chunk goes where
@@ -75,6 +81,13 @@ def order_scenarios(rng, n):
                 op['n'] = max(op['n'], 12)
                 if op.get('iterable_len') is not None:
                     op['iterable_len'] = op['n']
+        if rng.random() < .1:
+            # numpy input whose iterable_len over-estimates the array (clamped to the number of rows)
+            op = next(o for o in sc['ops'] if o['op'] != 'set')
+            for k in ('chunk_size', 'max_tasks_active', 'nd_dims'):
+                op.pop(k, None)
+            op.update(input='nd', elem='scalar', n=rng.randint(10, 24), n_splits=rng.choice([2, 3, 4]))
+            op['iterable_len'] = op['n'] + rng.randint(2, 12)
         for op in sc['ops']:
             if op['op'] == 'set' or op.get('input') == 'nd' or 'max_tasks_active' in op:
                 continue
